@@ -36,16 +36,20 @@ def main(ids):
     if st and inplace:
         print('refusing to run: /repo has uncommitted changes:\n' + st)
         return 2
+    scratch = Path(tempfile.mkdtemp(prefix='seedrun_out_'))
+    (scratch / 'evidence').mkdir(); (scratch / 'replays').mkdir()
+    redirect = {'VERIF_EVIDENCE_DIR': str(scratch / 'evidence'), 'VERIF_REPLAY_DIR': str(scratch / 'replays')}
     if inplace:
-        target, env = REPO, dict(os.environ)
+        target, env = REPO, dict(os.environ, **redirect)
     else:
         target = Path(tempfile.mkdtemp(prefix='seedrun_')) / 'repo'
         r = sh(['git', '-C', str(REPO), 'worktree', 'add', '--detach', str(target), 'HEAD'])
         assert r.returncode == 0, r.stderr
-        env = dict(os.environ, IBL_REPO=str(target))
+        env = dict(os.environ, IBL_REPO=str(target), **redirect)
     try:
         return _run(seeded, ids, target, env, rows)
     finally:
+        shutil.rmtree(scratch, ignore_errors=True)
         if not inplace:
             sh(['git', '-C', str(REPO), 'worktree', 'remove', '--force', str(target)])
             shutil.rmtree(target.parent, ignore_errors=True)
@@ -68,7 +72,7 @@ def _run(seeded, ids, REPO, env, rows):
                 rows.append((d.name, p, f'exit={r.returncode} ' + (vio[0] if vio else r.stdout.strip().splitlines()[-1][:120] if r.stdout.strip() else r.stderr.strip()[-120:])))
                 if vio:
                     rp = vio[0].split('replay=')[1].split()[0]
-                    src = VERIF / rp
+                    src = Path(rp) if os.path.isabs(rp) else VERIF / rp
                     if src.exists():
                         (d / f'replay_{p}.json').write_text(src.read_text())
         finally:
